@@ -50,6 +50,9 @@ func a5Check(r *core.Report, rule string, f *core.Func, extra ...a5Tactic) int {
 		}
 		switch x := node.(type) {
 		case *ast.IndexExpr:
+			if bc.basicKindTable(x) {
+				return true // go/types.Typ[<BasicKind constant>]: the table has one entry per kind by construction
+			}
 			if bc.indexable(x.X) {
 				n++
 				bc.obligation(x, x.X, bc.needOfIndex(x.X, x.Index, false))
@@ -108,6 +111,20 @@ func (bc *boundsCtx) indexable(x ast.Expr) bool {
 		return ok
 	}
 	return false
+}
+
+// basicKindTable: go/types.Typ indexed by a constant of type types.BasicKind.
+func (bc *boundsCtx) basicKindTable(x *ast.IndexExpr) bool {
+	sel, ok := ast.Unparen(x.X).(*ast.SelectorExpr)
+	if !ok {
+		return false
+	}
+	v, ok := bc.info.ObjectOf(sel.Sel).(*types.Var)
+	if !ok || v.Pkg() == nil || v.Pkg().Path() != "go/types" || v.Name() != "Typ" {
+		return false
+	}
+	tv, ok := bc.info.Types[x.Index]
+	return ok && tv.Value != nil && core.NamedTypeName(tv.Type) == "go/types.BasicKind"
 }
 
 func (bc *boundsCtx) isLenOf(e ast.Expr, base ast.Expr) bool {
